@@ -41,6 +41,7 @@ LOAD_ASSUME = ["atomicity of hashmap.Compute sections (C15) and of the calls tab
 
 PERIODIC = dict(engine="periodic", scale_quick=3, scale_thorough=20, timeout_quick=600, timeout_thorough=3000, model=False)
 LIN = dict(engine="lin", scale_quick=8, scale_thorough=40, timeout_quick=900, timeout_thorough=6000)
+ADDER = dict(engine="adder", scale_quick=3, scale_thorough=30, timeout_quick=600, timeout_thorough=3000)
 TBL = dict(engine="tbl", scale_quick=4, scale_thorough=40, timeout_quick=600, timeout_thorough=3000)
 TBL_RULE = ("tbl engine (the tie between the Coq model of the table's concurrency protocol, HashMapConc.v, and map.go): 60 schedules per unit of scale over 3-7 concurrent Compute (set / delete / add / keep), Get and Range calls on a table "
             "prepared in one of three stages - 121 keys in 32 buckets so that an insert into a full chain must grow the table first; a 64-bucket table emptied to 3 keys so that deletes shrink it (or take the flag and give up); a handful of keys - "
@@ -66,9 +67,9 @@ PROPS = {
                      "blocks on the eviction lock (decided from the goroutine's wait reason in the runtime stack dump, not from timing); the executor is the harness's (one goroutine per task like the default, "
                      "plus an end-of-task signal) with the default executor's rescheduling protocol; the replayer executes the same macro steps (DrainMacro.macro_step, proved to be small-step runs) on the extracted "
                      "model and compares the drain status, write-buffer size, lock and every thread's position after each; at the end: all threads finished => status idle, buffer empty, lock free; "
-                     "drain engine: (a) 60 scripted protocol windows per unit of scale, reached by parking goroutines at hook points: V1 the maintainer parked before its final status "
+                     "drain engine: (a) 60 scripted protocol windows per unit of scale (V1-V7 in turn), reached by parking goroutines at hook points: V1 the maintainer parked before its final status "
                      "transition, a writer pushes, loads 'processing-to-idle' and is parked before acting on it, the maintainer finishes (idle), the writer resumes and must start over; V2 the same with "
-                     "the writer's transition winning; V3 a writer holding a stale 'idle' while another writer runs a whole cycle; V4 writes made inside a Hottest/Coldest iteration; V5 the executor task waiting for the lock held by an explicit CleanUp; V6 the caller-runs fallback (write buffer of that cache shrunk to 4, eviction lock held from outside, a fifth writer exhausts its 100 retries, is parked inside its own maintenance run while one more write is recorded); (b) 400 rounds per unit of scale with the DEFAULT executor: 1-6 writers (Set/SetIfAbsent/Invalidate bursts of 1-12 or 100-500 writes) and 0-2 readers on a cache of "
+                     "the writer's transition winning; V3 a writer holding a stale 'idle' while another writer runs a whole cycle; V4 writes made inside a Hottest/Coldest iteration; V5 the executor task waiting for the lock held by an explicit CleanUp; V6 the caller-runs fallback (write buffer of that cache shrunk to 4, eviction lock held from outside, a fifth writer exhausts its 100 retries, is parked inside its own maintenance run while one more write is recorded); V7 a write by another goroutine while InvalidateAll holds the eviction lock, past its own drain of the write buffer (reached through the Clock sample InvalidateAll takes under the lock; the clock's ticks never fire, so no periodic clean-up comes to the rescue); (b) 400 rounds per unit of scale with the DEFAULT executor: 1-6 writers (Set/SetIfAbsent/Invalidate bursts of 1-12 or 100-500 writes) and 0-2 readers on a cache of "
                      "maximum 2-21; hook points inside the protocol inject random yields/sleeps (4 perturbation modes); after the calls return NO further cache call is made: only atomic loads of the drain "
                      "status and write-buffer size until quiescent (3 s limit), then status idle, buffer empty, bound restored, every write linked in the policy, OnDeletion count = OnAtomicDeletion count; "
                      "distinct_nontrivial = distinct (writers, readers, perturbation, burst) combinations",
@@ -119,11 +120,15 @@ PROPS = {
     "C10": dict(engines=[SEQ], rule=SEQ_RULE, assumptions=SEQ_ASSUME),
     "C11": dict(engines=[SEQ, LOAD], rule=SEQ_RULE + " | " + LOAD_RULE, assumptions=SEQ_ASSUME + ["in-flight / dedup behaviour of refresh is covered by C08/C09, not here"]),
     "C12": dict(engines=[SEQ], rule=SEQ_RULE, assumptions=SEQ_ASSUME),
-    "C20": dict(engines=[SEQ, dict(LIN, model=False), LOAD],
+    "C20": dict(engines=[SEQ, dict(LIN, model=False), LOAD, ADDER],
                 rule=SEQ_RULE + " | lin engine (implementation oracle only): after every concurrent case Stats.Evictions and EvictionWeight must equal the number of automatic removals the cache reported, "
                                 "however invalidations and replacements raced with maintenance"
-                                " | load engine: LoadSuccesses + LoadFailures must equal the number of loader invocations of every case, joiners (Get and single-key BulkGet callers of an in-flight load) counting nothing",
-                assumptions=SEQ_ASSUME + ["hit/miss/load counters are compared sequentially only"]),
+                                " | load engine: LoadSuccesses + LoadFailures must equal the number of loader invocations of every case, joiners (Get and single-key BulkGet callers of an in-flight load) counting nothing"
+                                " | adder engine (the tie between the Coq model of the striped counter, Adder.v, and internal/xsync/adder.go): 120 macro-step schedules per unit of scale over 2-5 concurrent Add / Value calls on an adder with 1, 2, 4 or 8 stripes; "
+                                "every Add parks between the load of its stripe and its CAS (hook 1, reporting the stripe), every Value before each stripe's load (hook 2); one goroutine is resumed at a time, so a second Add on the same stripe makes the parked one's CAS fail and "
+                                "probe another stripe; the replayer feeds the observed probe indices to the extracted model and compares the outcome of every CAS, every stripe after every macro step and every Value result; deltas 0, 1-9, up to 2^30 and 2^62 (the total wraps); "
+                                "at the end of a case Value() must equal the sum of the deltas mod 2^64; plus 40 free-running rounds per unit of scale of stats.Counter under 2-16 recorders and a snapshot reader (totals exact, successive snapshots never decrease)",
+                assumptions=SEQ_ASSUME + ["hit/miss/load counters of the cache are compared sequentially only; the counter's own concurrency is the adder model's (sequential consistency of sync/atomic; the token pool and Fastrand only choose probe indices, which are inputs)"]),
     "C18": dict(
         engines=[SKETCH, MAINT],
         rule="(admission in situ: the maint engine below replays every eviction pass on the extracted Policy/Sketch model, so which of candidate and victim leaves - and which candidate is compared next - must be the model's) sketch engine: per case one capacity from a boundary list (0..2^16+1), random/skewed key streams, "
